@@ -48,6 +48,7 @@ type Report struct {
 	Notes       []string
 	start       time.Time
 	mu          sync.Mutex
+	alias       map[string]string
 }
 
 func NewReport(prop, tier, level string) *Report {
@@ -55,6 +56,9 @@ func NewReport(prop, tier, level string) *Report {
 }
 
 func (r *Report) Rule(id, text string) {
+	if _, ok := r.alias[id]; ok {
+		return
+	}
 	if _, ok := r.Rules[id]; !ok {
 		r.ruleOrder = append(r.ruleOrder, id)
 	}
@@ -63,7 +67,25 @@ func (r *Report) Rule(id, text string) {
 
 func (r *Report) Assume(s ...string) { r.Assumptions = append(r.Assumptions, s...) }
 
+// Cite runs f with the rules named in as recorded under another rule id of this property: a rule decided for one
+// property is cited by another property that depends on it for a different consequence (the original id stays visible in
+// the key).
+func (r *Report) Cite(as map[string]string, f func()) {
+	r.mu.Lock()
+	old := r.alias
+	r.alias = as
+	r.mu.Unlock()
+	defer func() { r.mu.Lock(); r.alias = old; r.mu.Unlock() }()
+	f()
+}
+
 func (r *Report) add(rule, key, construct, pos string, st Status, reason string) *Obligation {
+	r.mu.Lock()
+	if a, ok := r.alias[rule]; ok {
+		key = rule + ":" + key
+		rule = a
+	}
+	r.mu.Unlock()
 	o := &Obligation{Property: r.Property, Rule: rule, Key: rule + "|" + key, Construct: construct, Pos: pos, Status: st, Reason: reason}
 	r.mu.Lock()
 	r.Obls = append(r.Obls, o)
